@@ -7,6 +7,7 @@ import (
 
 	"github.com/goatcms/goatcore/app"
 	"github.com/goatcms/goatcore/varutil/goaterr"
+	"github.com/goatcms/goatcore/verifhook"
 )
 
 // ContextScope is default context scope
@@ -42,6 +43,7 @@ func (s *ContextScope) IsDone() bool {
 	case <-s.done:
 		return true
 	default:
+		verifhook.Yield("contextscope.isdone.miss")
 	}
 	return false
 }
